@@ -1333,3 +1333,77 @@ Example example_v1_ok : enc_ok {| e_version := 1; e_serial := 1; e_subject := []
      e_not_before := 0; e_not_after := 0; e_spki := SRsa [128; 0; 1]; e_basic := None; e_key_usage := None;
      e_ekus := None; e_sans := None; e_ski := None; e_aki := None; e_sig := SigKnown 4 |} = true.
 Proof. vm_compute. reflexivity. Qed.
+
+(* ================================================================== *)
+(* N. presentations and the public-key child                           *)
+(* ================================================================== *)
+Theorem present_single : forall i, present_pem [i] = Ok i.
+Proof. reflexivity. Qed.
+
+Theorem present_bundle : forall i j r,
+  present_pem (i :: j :: r) = Ok (Info (bs "multiple PEM blocks") [] (i :: j :: r)).
+Proof. reflexivity. Qed.
+
+Theorem present_keystore : forall extras certs, length extras = length certs ->
+  map i_children (i_children (present_jks extras certs)) = map (fun c => [c]) certs.
+Proof.
+  unfold present_jks. cbn [i_children].
+  induction extras as [|[a ms] er IH]; destruct certs as [|c cr]; intro H; try discriminate; [reflexivity|].
+  cbn [jks_entries map jks_entry i_children]. f_equal. apply IH. cbn in H. congruence.
+Qed.
+
+(* "Size: n bits": n is the bit length of the encoded modulus *)
+Lemma be_to_N_acc_spec : forall l acc, be_to_N_acc acc l = acc * 256 ^ N.of_nat (length l) + be_to_N l.
+Proof.
+  unfold be_to_N. induction l as [|b l IH]; intro acc.
+  - cbn. lia.
+  - cbn [be_to_N_acc length]. rewrite IH, (IH (0 * 256 + b)).
+    rewrite Nnat.Nat2N.inj_succ, N.pow_succ_r'. lia.
+Qed.
+
+Lemma be_to_N_bound : forall l, bytes_ok l = true -> be_to_N l < 256 ^ N.of_nat (length l).
+Proof.
+  induction l as [|b l IH]; intro H.
+  - cbn. lia.
+  - apply bytes_ok_cons in H. destruct H as [Hb Hl]. specialize (IH Hl).
+    unfold be_to_N in *. cbn [be_to_N_acc length]. rewrite be_to_N_acc_spec.
+    rewrite Nnat.Nat2N.inj_succ, N.pow_succ_r'. unfold be_to_N. nia.
+Qed.
+
+Lemma be_to_N_strip : forall l, be_to_N (strip_zeros l) = be_to_N l.
+Proof.
+  induction l as [|b l IH]; [reflexivity|].
+  cbn [strip_zeros]. destruct b; [|reflexivity]. rewrite IH. reflexivity.
+Qed.
+
+Theorem bitlen_be_size : forall l, bytes_ok l = true -> bitlen_be l = N.size (be_to_N l).
+Proof.
+  intros l H. unfold bitlen_be. rewrite <- (be_to_N_strip l).
+  assert (Hs : bytes_ok (strip_zeros l) = true).
+  { induction l as [|b l IH]; [reflexivity|]. cbn [strip_zeros].
+    apply bytes_ok_cons in H. destruct H as [Hb Hl]. destruct b; [apply IH; exact Hl|].
+    apply bytes_ok_cons. split; assumption. }
+  assert (Hh : match strip_zeros l with [] => True | h :: _ => h <> 0 end).
+  { clear. induction l as [|b l IH]; [exact I|]. cbn [strip_zeros]. destruct b; [exact IH|discriminate]. }
+  destruct (strip_zeros l) as [|h r]; [reflexivity|].
+  apply bytes_ok_cons in Hs. destruct Hs as [Hh256 Hr].
+  pose proof (be_to_N_bound r Hr) as Hb.
+  unfold be_to_N in *. cbn [be_to_N_acc]. rewrite be_to_N_acc_spec. fold (be_to_N r) in *.
+  set (k := N.of_nat (length r)) in *. set (x := be_to_N_acc 0 r) in *.
+  replace (0 * 256 + h) with h by lia.
+  assert (H256 : 256 ^ k = 2 ^ (8 * k)) by (rewrite N.pow_mul_r; reflexivity).
+  rewrite H256 in *.
+  assert (Hpos : 0 < h) by lia.
+  pose proof (N.log2_spec h Hpos) as [L1 L2].
+  assert (Hn : h * 2 ^ (8 * k) + x <> 0) by (assert (0 < 2 ^ (8 * k)) by (apply N.neq_0_lt_0, N.pow_nonzero; lia); nia).
+  rewrite !N.size_log2 by assumption. f_equal.
+  assert (Hl : N.log2 (h * 2 ^ (8 * k) + x) = N.log2 h + 8 * k).
+  { apply N.log2_unique; [lia|].
+    rewrite N.pow_succ_r', N.pow_add_r. rewrite N.pow_succ_r' in L2.
+    assert (Hp : 0 < 2 ^ (8 * k)) by (apply N.neq_0_lt_0, N.pow_nonzero; lia).
+    set (a := 2 ^ N.log2 h) in *. set (p := 2 ^ (8 * k)) in *.
+    assert (M1 : a * p <= h * p) by (apply N.mul_le_mono_r; exact L1).
+    assert (M2 : (h + 1) * p <= 2 * a * p) by (apply N.mul_le_mono_r; lia).
+    change (be_to_N r) with x in Hb. clearbody a p x. split; lia. }
+  change (be_to_N r) with x. rewrite Hl. lia.
+Qed.
